@@ -127,3 +127,121 @@ func runA11(c *core.Ctx) {
 		c.Undecided(rel+"/length-register", token.NoPos, "no handler writes %s", RL)
 	}
 }
+
+// A13: the input base and length registers of the JIT decoder are constants of a decode. IP and
+// IL are set by the prologue and only ever reloaded from their save slots. The emitters borrow
+// IL as a scratch register for call targets, which is fine *between* a save(...) that stored it
+// and the load(...) that restores it; a write before the save makes the save slot hold the
+// scratch value, and every bound check after the call compares against it.
+
+func init() {
+	register(&core.Rule{ID: "A13", Min: 2,
+		Doc: "Input base/length registers of the JIT decoder (IP, IL): in every template of jitdec._Assembler (handlers and stand-alone routines, helpers inlined), a write to IP or IL outside the register-restoring helper `load` happens only while the register is parked, i.e. after a `save` helper stored it to the frame and before the matching `load` restored it; a write while it is live replaces the input length (or base) for the rest of the decode.",
+		Run: runA13})
+}
+
+func runA13(c *core.Ctx) {
+	p := c.Prog
+	if p.GOARCH != "amd64" {
+		return
+	}
+	rel := "internal/decoder/jitdec"
+	regs := map[string]string{}
+	for _, nm := range []string{"_IP", "_IL"} {
+		if r := regOf(p, rel, nm); r != "" {
+			regs[r] = nm
+		}
+	}
+	if len(regs) != 2 {
+		c.Undecided(rel+"/_IP,_IL", token.NoPos, "register variables not found")
+		return
+	}
+	a := newAsmCtx(p, rel, "_Assembler")
+	n := 0
+	for _, fd := range sortedFuncDecls(a.methods()) {
+		isHandler := strings.HasPrefix(fd.Name.Name, "_asm_OP_")
+		if !isHandler && fd.Type.Params.NumFields() != 0 {
+			continue
+		}
+		if fd.Name.Name == "prologue" || fd.Name.Name == "compile" || fd.Name.Name == "instrs" || fd.Name.Name == "builtins" {
+			continue // the prologue defines the registers; the whole-program roots repeat every routine
+		}
+		seqs, ok := a.seqs(fd, asmEnv{}, 0)
+		if !ok || anyTrunc(seqs) {
+			continue
+		}
+		fn := handlerName(a.pk, fd)
+		writes := 0
+		bad := map[string]token.Pos{}
+		for _, sq := range seqs {
+			parked := map[string]bool{}
+			var helpers []string
+			in := func(name string) bool {
+				for _, h := range helpers {
+					if h == name {
+						return true
+					}
+				}
+				return false
+			}
+			for _, o := range sq.Ops {
+				switch o.Kind {
+				case "Helper":
+					nm := ""
+					if o.Callee != nil {
+						nm = o.Callee.Name()
+					}
+					helpers = append(helpers, nm)
+					continue
+				case "HelperEnd":
+					if len(helpers) > 0 {
+						helpers = helpers[:len(helpers)-1]
+					}
+					continue
+				case "Link":
+					// a label may be entered from elsewhere: nothing is known to be parked
+					parked = map[string]bool{}
+					continue
+				}
+				if o.Kind != "Emit" || len(o.Ops) < 2 {
+					continue
+				}
+				src, dst := o.Ops[0], o.Ops[len(o.Ops)-1]
+				if in("save") && o.Mnem == "MOVQ" && src.Kind == "reg" && regs[src.Reg] != "" && dst.Kind == "mem" && dst.Reg == "SP" {
+					parked[src.Reg] = true
+					continue
+				}
+				if dst.Kind != "reg" || regs[dst.Reg] == "" || nonWriting[o.Mnem] {
+					continue
+				}
+				writes++
+				if in("load") {
+					parked[dst.Reg] = false
+					continue
+				}
+				if !parked[dst.Reg] {
+					bad["`"+o.String()+"` overwrites "+regs[dst.Reg]+" ("+dst.Reg+") while it is live (no save(...) has parked it): the save that follows stores this value, the load after the call brings it back, and every later bound check of the enclosing decoder compares the cursor with it instead of the input length"] = o.Pos
+				}
+			}
+		}
+		if writes == 0 {
+			continue
+		}
+		n++
+		c.Analysed(fn)
+		cn := fn + "/input-registers"
+		if len(bad) == 0 {
+			c.OK(cn, fd.Pos(), "%d write(s) of IP/IL, all while the register is parked in the frame or restoring it", writes)
+			continue
+		}
+		var ks []string
+		for k := range bad {
+			ks = append(ks, k)
+		}
+		sort.Strings(ks)
+		c.Bad(cn, bad[ks[0]], "%s", ks[0])
+	}
+	if n == 0 {
+		c.Undecided(rel+"/input-registers", token.NoPos, "no template writes IP or IL")
+	}
+}
